@@ -213,6 +213,10 @@ def decide(mod, prop, tier, seed, m, wall, zfile, shash, nfiles, nshards):
     linecov = m["info"].pop("_linecov", None)
     if linecov is not None:
         coverage["anchor_line_coverage"] = anchor_coverage(prop, linecov)
+        dump = os.environ.get("ZCVERIF_LINECOV_DUMP")
+        if dump:        # tools/uncovered.py: full hit map, not evidence
+            with open(os.path.join(dump, prop + ".json"), "w") as f:
+                json.dump({k: sorted(v) for k, v in linecov.items()}, f)
     coverage.update({k: v for k, v in m["info"].items()
                      if k not in coverage})
     ev = {
